@@ -594,6 +594,11 @@ func declenLattice(emit func(caseSpec)) {
 		{"-1 (extra)", func(int) string { return "-1" }, false},
 		{"leading zeros (extra)", func(b int) string { return "000" + strconv.Itoa(b) }, false},
 		{"20 digits (extra)", func(int) string { return "99999999999999999999" }, false},
+		// declarations around the 64-bit edge: an accumulator that wraps turns them into small or negative lengths
+		{"2^63-1", func(int) string { return "9223372036854775807" }, true},
+		{"2^63", func(int) string { return "9223372036854775808" }, true},
+		{"2^64-21 (wraps to minus the length of its own prefix)", func(int) string { return "18446744073709551595" }, true},
+		{"2^64+3 (wraps to the body length)", func(int) string { return "18446744073709551619" }, true},
 	}
 	for _, pos := range poss {
 		var pre, post []byte
